@@ -172,9 +172,12 @@ func (x *ChanPubSub[C, V]) Send(value V) (sent int) {
 	x.checkUsedFactoryFunction()
 	x.checkBroken()
 
+	verifPoint("pubsub.atomic.begin", x, 0)
 	if x.subscribers.Load() == 0 {
+		verifPoint("pubsub.send.fast", x, 0)
 		return 0 // no subscribers (fast path)
 	}
+	verifPoint("pubsub.send.fast", x, 1)
 
 	// for sanity of the ping-pong communication pattern
 	x.sendMu.Lock()
